@@ -29,7 +29,7 @@ SPEC = dict(
               "arith_shl_spec", "arith_shr_spec", "arith_not_spec", "arith_result_in_range", "div_mod_zero_reverts",
               "index_oob_reverts", "eval_deterministic", "eval_fuel_mono", "eval_fuel_mono_skip",
               "eval_outcome_unique", "welltyped_no_stuck_partial", "C01_partial"],
-    steps=[dict(bin="sv_c01", area="c01", n_quick=110, n_thorough=1300, corpus="corpus/c01.txt",
+    steps=[dict(bin="sv_c01", area="c01", n_quick=70, n_thorough=520, corpus="corpus/c01.txt",
                 args=["--pkg-size", "130", "--e2e", "auto"], dist_keys=_DIST, nontrivial=_nontrivial, timeout=5400)],
     custom=[_skip_guard],
     rule="random well-typed Sway programs over an explicit AST (harness/src/proggen.rs: u8/u16/u32/u64/u256, bool, "
